@@ -32,7 +32,7 @@ def check_equations(isos, p, loadings, rtol=1e-5):
         problems.append(f"fractions outside [0,1]: {x}")
     p0 = numpy.asarray(p, dtype=float) / x
     pis = [float(iso.spreading_pressure_at(p0[i])) for i, iso in enumerate(isos)]
-    if not numpy.allclose(pis, pis[0], rtol=rtol, atol=1e-9):
+    if not numpy.allclose(pis, pis[0], rtol=rtol, atol=0):  # (scale-free: spreading pressures of 1e-8 are as good as any)
         problems.append(f"spreading pressures differ: {pis}")
     inv = sum(x[i] / float(isos[i].loading_at(p0[i])) for i in range(len(isos)))
     if not numpy.isclose(1 / inv, nt, rtol=rtol):
@@ -273,6 +273,24 @@ def guess_cases():
             yield {'name': name, 'ok': not probs, 'detail': '; '.join(probs)}
         except Exception as exc:  # (the property speaks about calculations that return)
             yield {'name': name, 'ok': True, 'detail': f"refused: {type(exc).__name__}"}
+    # the same at partial pressures of 1e-9 .. 1e-10 (spreading pressures of the order of 1e-8: far below any absolute tolerance)
+    low = [_iso('Langmuir', {'K': 2.0, 'n_m': 4.0}, 0), _iso('Langmuir', {'K': 0.5, 'n_m': 4.0}, 1), _iso('Langmuir', {'K': 8.0, 'n_m': 4.0}, 2)]
+    for isos_, pp, g in ((low[:2], [1e-9, 1e-9], None), (low[:2], [1e-9, 1e-9], [0.5, 0.5]), (low[:2], [1e-9, 1e-9], [0.95, 0.05]), (low, [1e-10, 1e-10, 1e-10], [0.2, 0.3, 0.5])):
+        name = f"user_guess|iast_point|p={pp[0]:g}|{g}"
+        try:
+            kw_ = {} if g is None else {'adsorbed_mole_fraction_guess': g}
+            got = numpy.asarray(pgi.iast_point(isos_, pp, warningoff=True, **kw_), dtype=float)
+            probs = [f"returned {got}"] if not numpy.all(numpy.isfinite(got)) else check_equations(isos_, pp, got, rtol=1e-4)
+            yield {'name': name, 'ok': not probs, 'detail': '; '.join(probs)}
+        except Exception as exc:
+            yield {'name': name, 'ok': True, 'detail': f"refused: {type(exc).__name__}"}
+    try:
+        y, lo = pgi.reverse_iast(low[:2], [0.5, 0.5], 1e-9, warningoff=True)
+        y, lo = numpy.asarray(y, dtype=float), numpy.asarray(lo, dtype=float)
+        probs = check_equations(low[:2], list(y * 1e-9), lo, rtol=1e-4)
+        yield {'name': 'user_guess|reverse_iast|P=1e-09', 'ok': not probs, 'detail': '; '.join(probs)}
+    except Exception as exc:
+        yield {'name': 'user_guess|reverse_iast|P=1e-09', 'ok': True, 'detail': f"refused: {type(exc).__name__}"}
     for g in ([0.5, 0.5], [1.0, 0.0], [0.0, 1.0]):
         name = f"user_guess|reverse_iast|{g}"
         try:
